@@ -361,7 +361,7 @@ func (w *World) exec(i int, s *Step) {
 
 func (w *World) encodeUpdate(p *Peer, s *Step) []byte {
 	asn4, ap := p.UpdateOpts(s.V6)
-	u := UpdateSpec{V6: s.V6, ForceMP: s.ForceMP, ASN4: asn4, AddPath: ap}
+	u := UpdateSpec{V6: s.V6, ForceMP: s.ForceMP, ASN4: asn4, AddPath: ap, AlsoNextHop: s.AlsoNH}
 	var nl []NLRI
 	for i, pfx := range s.Pfx {
 		id := s.PathID
